@@ -165,6 +165,13 @@ fn main() {
         ids_mode(av.get(2).and_then(|x| x.parse().ok()).unwrap_or(5));
         return;
     }
+    // the process has used rayon before (a long-lived host; an earlier module): one small parallel
+    // parse + emit outside of any exploration, so that every item below - and every replay - starts from
+    // the same process history
+    {
+        let tiny: [u8; 30] = [0, 0x61, 0x73, 0x6d, 1, 0, 0, 0, 1, 4, 1, 0x60, 0, 0, 3, 3, 2, 0, 0, 0x0a, 7, 2, 2, 0, 0x0b, 2, 0, 0x0b, 0, 0];
+        let _ = std::panic::catch_unwind(|| walrus::Module::from_buffer(&tiny[..28]).map(|mut m| m.emit_wasm()));
+    }
     let cases = read_cases(&av[1]);
     let repeats: usize = av[2].parse().unwrap_or(5);
     let pools: Vec<(usize, rayon::ThreadPool)> = (1..=16).map(|t| (t, rayon::ThreadPoolBuilder::new().num_threads(t).build().unwrap())).collect();
